@@ -32,8 +32,10 @@ Inductive tmo := TNone | TZero | TFin.
 Record getk := { gw : tmo; gc : tmo; gr : tmo }.
 
 (* pooled object with its Metrics; [created]/[recycled] are logical clock stamps *)
-(* [since] is a ghost stamp: the logical time at which the object became idle *)
-Record obj := { oid : nat; created : nat; recycled : option nat; rcount : nat; since : nat }.
+(* [since] and [handed] are ghosts: the logical time at which the object became idle, and the
+   number of times it has been handed to a caller *)
+Record obj := { oid : nat; created : nat; recycled : option nat; rcount : nat; since : nat;
+                handed : nat }.
 
 Record cfg := {
   max0 : nat;            (* configured max_size *)
@@ -238,12 +240,16 @@ Definition first_stage (c : cfg) : stage :=
   match pre c with [] => SRecycle | _ => SPre 0 end.
 
 (* the object is ready: hand it to the caller *)
+Definition bump (o : obj) : obj :=
+  {| oid := oid o; created := created o; recycled := recycled o; rcount := rcount o;
+     since := since o; handed := S (handed o) |}.
+
 Definition hand_out (s : state) (t : nat) (o : obj) : state :=
-  setpc (emit (set_out s (o :: out s)) (EHandOut o t)) t (PDone ROk).
+  setpc (emit (set_out s (bump o :: out s)) (EHandOut (bump o) t)) t (PDone ROk).
 
 Definition recycled_obj (s : state) (o : obj) : obj :=
   {| oid := oid o; created := created o; recycled := Some (clock s); rcount := S (rcount o);
-     since := since o |}.
+     since := since o; handed := handed o |}.
 
 (* after stage [st] succeeded *)
 Definition next_stage (c : cfg) (s : state) (t : nat) (g : getk) (o : obj) (st : stage) : state :=
@@ -373,7 +379,8 @@ Definition start (c : cfg) (s : state) (t : nat) (o : op) : option state :=
 
 (* the object as it is put into the idle queue: stamped with the current logical time *)
 Definition idle_at (s : state) (o : obj) : obj :=
-  {| oid := oid o; created := created o; recycled := recycled o; rcount := rcount o; since := clock s |}.
+  {| oid := oid o; created := created o; recycled := recycled o; rcount := rcount o; since := clock s;
+     handed := handed o |}.
 
 (* ------------------------------------------------------------------ Step *)
 (* the acquire attempt at "get.acquire" / "get.reacquire" *)
@@ -476,7 +483,7 @@ Definition step_task (c : cfg) (s : state) (t : nat) : option state :=
 
 (* ------------------------------------------------------------------ Env / Cancel / Fire *)
 Definition new_obj (s : state) : obj :=
-  {| oid := next_oid s; created := clock s; recycled := None; rcount := 0; since := 0 |}.
+  {| oid := next_oid s; created := clock s; recycled := None; rcount := 0; since := 0; handed := 0 |}.
 
 Definition env_task (c : cfg) (s : state) (t : nat) (r : outcome) : option state :=
   match pcof s t with
